@@ -1753,14 +1753,15 @@ bool QXmppMessage::parseExtension(const QDomElement &element, QXmpp::SceMode sce
             if (!bodyElement.isNull() && bodyElement.namespaceURI() == ns_xhtml) {
                 // a second <html/> element replaces the first one instead of being written over its text
                 d->xhtml.clear();
+                // keep the content of the <body/> element (cutting the tags out of the saved text
+                // also removed the end tags of nested <body/> elements)
                 QTextStream stream(&d->xhtml, QIODevice::WriteOnly);
-                bodyElement.save(stream, 0);
-
-                d->xhtml = d->xhtml.mid(d->xhtml.indexOf(u'>') + 1);
+                for (auto child = bodyElement.firstChild(); !child.isNull(); child = child.nextSibling()) {
+                    child.save(stream, 0);
+                }
                 d->xhtml.replace(
                     u" xmlns=\"http://www.w3.org/1999/xhtml\""_s,
                     QString());
-                d->xhtml.replace(u"</body>"_s, QString());
                 d->xhtml = d->xhtml.trimmed();
             }
             return true;
